@@ -60,8 +60,12 @@ class SockObj(Opaque):
             raise Unsupported('socket read bound exceeded')
         if w.shut_rd:
             return Ok(bv(0))
-        if w.gate is not None and not w.gate(w):
-            raise Blocked('socket read: the client is withholding data', w)
+        if w.gate is not None:
+            g = w.gate(w)
+            if g == 'eof':
+                return Ok(bv(0))
+            if not g:
+                raise Blocked('socket read: the client is withholding data', w)
         rem = z3.simplify(w.len - w.pos)
         if ctx.branch(rem == 0):
             if w.end == 'eof':
